@@ -201,35 +201,173 @@ func Concrete(v, lo, hi int) int {
 
 // ---------------------------------------------------------------- threads
 //
-// Under the symbolic executor Go/Yield/WaitAll are scheduling points of its
-// own scheduler (every interleaving at lock/atomic granularity within the
-// pre-emption bound). Natively they are real goroutines: a native replay of a
-// schedule-dependent counterexample is run under the race detector and
-// repeated, it is not schedule-exact.
-var threads sync.WaitGroup
+// Under the symbolic executor Go/Yield/WaitAll (and every lock acquisition,
+// atomic, ...) are scheduling points of its own scheduler. Natively there are
+// two modes:
+//   - free mode (default): real goroutines, used under `go test -race` for
+//     data-race counterexamples;
+//   - scheduled mode (Scheduled = true): a cooperative scheduler. Exactly one
+//     registered goroutine runs at a time; scheduling points are Go, Yield,
+//     WaitAll and every mutex acquisition of the repository (the replay
+//     overlay rewrites `x.Lock()` / `x.RLock()` statements into Lock(&x) /
+//     RLock(&x)). The next thread is chosen by a seeded PRNG, so a replay
+//     searches schedules: a schedule-dependent counterexample is confirmed
+//     when some seed makes the same assertion fail on the real code.
+var (
+	Scheduled  bool
+	schedRand  uint64
+	schedMu    sync.Mutex
+	schedTh    []*nthread
+	schedCur   *nthread
+	threads    sync.WaitGroup
+	thPanic    atomic.Value
+)
+
+type nthread struct {
+	wake chan struct{}
+	done bool
+}
+
+// SeedSchedule resets the cooperative scheduler for one attempt.
+func SeedSchedule(seed uint64) {
+	schedRand = seed*2862933555777941757 + 3037000493
+	main := &nthread{wake: make(chan struct{}, 1)}
+	schedTh = []*nthread{main}
+	schedCur = main
+	thPanic = atomic.Value{}
+}
+
+func schedNext() uint64 {
+	schedRand ^= schedRand << 13
+	schedRand ^= schedRand >> 7
+	schedRand ^= schedRand << 17
+	return schedRand
+}
+
+// schedSwitch hands the baton to a randomly chosen live thread (possibly the caller).
+func schedSwitch(excludeSelf bool) {
+	me := schedCur
+	var live []*nthread
+	for _, t := range schedTh {
+		if !t.done && !(excludeSelf && t == me) {
+			live = append(live, t)
+		}
+	}
+	if len(live) == 0 {
+		if excludeSelf {
+			return // nobody else can run: the caller keeps spinning (real deadlock is caught by the spin bound)
+		}
+		return
+	}
+	next := live[schedNext()%uint64(len(live))]
+	if next == me {
+		return
+	}
+	schedCur = next
+	next.wake <- struct{}{}
+	if !me.done {
+		<-me.wake
+	}
+}
 
 func Go(f func()) {
-	threads.Add(1)
+	if !Scheduled {
+		threads.Add(1)
+		go func() {
+			defer threads.Done()
+			defer func() {
+				if r := recover(); r != nil {
+					thPanic.Store(r)
+				}
+			}()
+			f()
+		}()
+		return
+	}
+	t := &nthread{wake: make(chan struct{}, 1)}
+	schedTh = append(schedTh, t)
 	go func() {
-		defer threads.Done()
+		<-t.wake
 		defer func() {
 			if r := recover(); r != nil {
-				threadPanics.Store(r)
+				thPanic.Store(r)
 			}
+			t.done = true
+			schedSwitch(true)
 		}()
 		f()
 	}()
+	schedSwitch(false)
 }
 
-var threadPanics atomic.Value
+func Yield() {
+	if !Scheduled {
+		runtime.Gosched()
+		return
+	}
+	schedSwitch(false)
+}
 
-func Yield() { runtime.Gosched() }
+type locker interface {
+	Lock()
+	TryLock() bool
+}
+
+type rlocker interface {
+	RLock()
+	TryRLock() bool
+}
+
+// Lock is what the replay overlay turns `x.Lock()` statements into.
+func Lock(m locker) {
+	if !Scheduled {
+		m.Lock()
+		return
+	}
+	schedSwitch(false)
+	for spins := 0; !m.TryLock(); spins++ {
+		if spins > 100000 {
+			panic("verifrt: scheduled replay spun on a mutex nobody releases (deadlock)")
+		}
+		schedSwitch(true)
+	}
+}
+
+// RLock is what the replay overlay turns `x.RLock()` statements into.
+func RLock(m rlocker) {
+	if !Scheduled {
+		m.RLock()
+		return
+	}
+	schedSwitch(false)
+	for spins := 0; !m.TryRLock(); spins++ {
+		if spins > 100000 {
+			panic("verifrt: scheduled replay spun on a mutex nobody releases (deadlock)")
+		}
+		schedSwitch(true)
+	}
+}
 
 // WaitAll joins every goroutine started with Go.
 func WaitAll() {
-	threads.Wait()
-	if r := threadPanics.Load(); r != nil {
-		threadPanics = atomic.Value{}
+	if !Scheduled {
+		threads.Wait()
+	} else {
+		for {
+			alive := false
+			for _, t := range schedTh[1:] {
+				if !t.done {
+					alive = true
+				}
+			}
+			if !alive {
+				break
+			}
+			schedSwitch(true)
+		}
+	}
+	if r := thPanic.Load(); r != nil {
+		thPanic = atomic.Value{}
 		panic(r)
 	}
 }
